@@ -1,7 +1,15 @@
 """C06"""
 PROPERTY = "C06"
 LEVEL = "proof"
-FUNCTIONS = []
+FUNCTIONS = ['uxarray.core.dataarray.UxDataArray.integrate@dims=n_face',
+    'uxarray.core.dataarray.UxDataArray.integrate@dims=time,n_face',
+    'uxarray.core.dataarray.UxDataArray.integrate@dims=time,lev,n_face',
+    'uxarray.core.dataarray.UxDataArray.integrate@dims=n_node',
+    'uxarray.core.dataarray.UxDataArray.integrate@dims=time,n_node',
+    'uxarray.core.dataarray.UxDataArray.integrate@dims=n_edge',
+    'uxarray.core.dataarray.UxDataArray.integrate@dims=lev,n_edge',
+    'uxarray.core.dataarray.UxDataArray.integrate@dims=n_face,lev',
+    'uxarray.core.dataarray.UxDataArray.integrate@dims=time']
 STANDINS = ["integration"]
 ASSUMPTIONS = []
 EXPLANATION = ""
